@@ -19,6 +19,11 @@ TRUSTED_BASE = [
 ]
 
 
+# properties whose every clause is carried by contracts on the functions it is anchored in (level `proof` when every
+# obligation discharges; anything less is reported as `other` with the proved / bounded split in the evidence)
+PROOF_PROPS = {'C08', 'C12'}
+
+
 def build_registry() -> Registry:
     reg = Registry()
     import contracts
@@ -55,6 +60,15 @@ def run_property(prop: str, tier: str):
         for o in rep.obligations:
             src_of[id(o)] = rep.source
         obligations.extend(rep.obligations)
+    from .state import Obligation
+    for (lname, lprops, lfn) in reg.lemmas:
+        if prop not in lprops:
+            continue
+        n0 = len(obligations)
+        for (sub, hyps, goal) in lfn(reg):
+            obligations.append(Obligation('lemma:%s/%s' % (lname, sub), hyps, goal, 'lemma', 'lemma:' + lname))
+        functions.append({'function': 'lemma:' + lname, 'mode': 'deductive', 'obligations': len(obligations) - n0,
+                          'file': 'contracts (pure-logic lemma over the contracts)'})
     res = solve_all(obligations, timeout_s=timeout) if obligations else {}
     failed, unknown, by_backend, solver_seconds = [], [], {}, 0.0
     n_obl = n_dis = 0
@@ -91,6 +105,9 @@ def run_property(prop: str, tier: str):
 def evidence(prop, tier, seed, pr, fl, violations, known_lines, undecided, checker_errors, wall):
     cov = {}
     level = 'other'
+    if (pr and prop in PROOF_PROPS and pr['n_obligations'] > 0 and pr['n_discharged'] == pr['n_obligations']
+            and not pr['unsupported'] and not pr['errors']):
+        level = 'proof'
     assumptions = []
     if pr:
         cov.update({
